@@ -50,8 +50,9 @@ def maIdle : MaKind → Nat
   | .sma p | .ema p | .rma p | .smma p | .wma p => p - 1
   | .hma p => (p - 1) + (roundSqrt p - 1)
 
-def apo (fast slow : Nat) (c : Sig α) : Sig α :=
-  sub (lag (slow - fast) (ema fast two c)) (ema slow two c)
+/-- `sf`, `ss`: the public `FastSmoothing` / `SlowSmoothing` fields (default 2) -/
+def apo (fast slow : Nat) (sf ss : α) (c : Sig α) : Sig α :=
+  sub (lag (slow - fast) (ema fast sf c)) (ema slow ss c)
 
 def aroonLine (p : Nat) (extreme : Sig α) : Sig α :=
   round0 (mulBy hundred (divBy (nat p) (incBy (nat p) (mulBy negOne (since extreme)))))
